@@ -186,6 +186,8 @@ def forge_same_crc(prefix: bytes, target: int) -> bytes:
 # --------------------------------------------------------------------------------------------------------- generator
 def gen_part(rng: random.Random) -> str:
     n = rng.choice((1, 1, 2, 3, 5, 9))
+    if rng.random() < 0.06:
+        n = rng.choice((127, 128, 129, 255, 256, 300, 1000))  # unusual sizes: long name components (no limit in the format)
     while True:
         s = ''.join(rng.choice(NAME_CHARS) for _ in range(n))
         if s != ' ':
